@@ -104,6 +104,16 @@ def civilOf (t : Int) : Civil :=
   let sec := r / nsPerSec
   { y := y, m := m, d := d, h := sec / 3600, mi := sec % 3600 / 60, s := sec % 60, ns := r % nsPerSec }
 
+/-- a wall-clock reading to the second: valid calendar date, clock fields in range, no sub-second part -/
+def ValidWall (c : Civil) : Prop :=
+  ValidDate c.y c.m c.d ∧ 0 ≤ c.h ∧ c.h < 24 ∧ 0 ≤ c.mi ∧ c.mi < 60 ∧ 0 ≤ c.s ∧ c.s < 60 ∧ c.ns = 0
+
+/-- "a later wall-clock time": lexicographic order on (year, month, day, hour, minute, second) -/
+def WallLt (a b : Civil) : Prop :=
+  DateLt (a.y, a.m, a.d) (b.y, b.m, b.d) ∨
+  ((a.y = b.y ∧ a.m = b.m ∧ a.d = b.d) ∧
+    (a.h < b.h ∨ (a.h = b.h ∧ (a.mi < b.mi ∨ (a.mi = b.mi ∧ a.s < b.s)))))
+
 def midnight (ymd : Int × Int × Int) : Int := daysFromCivil ymd.1 ymd.2.1 ymd.2.2 * nsPerDay
 
 /-! ## rationals: truncation toward zero (Go's `int(f)`, `math.Modf`, `time.Duration(f)`) -/
@@ -150,6 +160,39 @@ def timeToExcelTimeNs (t : Int) (date1904 : Bool) : Int :=
     -- result += float64(diff-rem)/float64(dayNanoseconds) + float64(rem)/float64(dayNanoseconds)
     let r := result * dayNanoseconds + (diff - rem) + rem
     if !date1904 && t > buggyStart then r + dayNanoseconds else r
+
+/-- the float64 operations `timeToExcelTime` performs (each one rounds): conversion of an
+`int64`/`Duration`/integer constant, addition, division -/
+structure FloatOps (F : Type) where
+  ofInt : Int → F
+  add : F → F → F
+  div : F → F → F
+
+/-- the chunk loop with its float64 accumulator `result` (control flow on exact durations, as in Go) -/
+def chunkLoopF {F : Type} (ops : FloatOps F) (date : Int) : Nat → Int → Int → F → Int × F
+  | 0, _, diff, result => (diff, result)
+  | fuel + 1, tt, diff, result =>
+    if diff ≥ maxDuration then
+      let tt' := tt + (-maxDuration)
+      chunkLoopF ops date fuel tt' (satSub tt' date)
+        (ops.add result (ops.ofInt (maxDuration.tdiv dayNanoseconds)))
+    else (diff, result)
+
+/-- `timeToExcelTime(t, date1904)` with every float64 operation explicit, generic in the carrier:
+instantiated with `Float` in the driver (compared bit for bit with Go) and with rounded rationals in
+the proofs (`Lemmas/DateFloat.lean`) -/
+def timeToExcelTimeF {F : Type} (ops : FloatOps F) (t : Int) (date1904 : Bool) : F :=
+  let date := if date1904 then epoch1904 else minTime1900
+  if t < date then ops.ofInt 0
+  else
+    let fuel := ((t - date) / maxDuration).toNat + 1
+    let p := chunkLoopF ops date fuel t (satSub t date) (ops.ofInt 0)
+    let diff := p.1
+    let rem := diff.tmod dayNanoseconds
+    let result := ops.add p.2
+      (ops.add (ops.div (ops.ofInt (diff - rem)) (ops.ofInt dayNanoseconds))
+               (ops.div (ops.ofInt rem) (ops.ofInt dayNanoseconds)))
+    if !date1904 && t > buggyStart then ops.add result (ops.ofInt 1) else result
 
 /-- the exact serial number -/
 def timeToExcelTime (t : Int) (date1904 : Bool) : Rat :=
@@ -282,6 +325,12 @@ def serialSeconds (date1904 : Bool) (y m d h mi s : Int) : Int :=
   (if date1904 then dayCount1904 y m d else excelDayCount y m d) * 86400 + h * 3600 + mi * 60 + s
 
 end Spec
+
+/-- the rounding-to-the-second rule of `timeFromExcelTime`'s Gregorian path, applied to a
+nanosecond count `n` whose zero is a whole second: more than 500 whole milliseconds round up
+(to the nearest second), otherwise truncate -/
+def secondRule (n : Int) : Int :=
+  if n % 1000000000 / 1000000 > 500 then n - n % 1000000000 + 1000000000 else n - n % 1000000000
 
 /-! ## tolerances (in days) between the stored float64 and the exact serial.
 `encTol` is what the harness measures on every stored value; `decTol` is what the
